@@ -32,6 +32,7 @@ type PropCfg struct {
 	Runs      map[string]int // tier -> runs per seed
 	MasksPer  map[string]int // tier -> option masks per program
 	Evolve    bool           // build old/new schema pairs
+	NoProgs   bool           // the simulation needs no generated programs (iohelp only)
 	Params    map[string]map[string]int
 	Seeds     map[string][]uint64
 	Assume    []string
@@ -115,6 +116,9 @@ func LoadKnown() ([]proto.KnownFinding, error) {
 // population draws the programs of one seed.
 func population(cfg *PropCfg, tier string, seed uint64) []ProgSpec {
 	var specs []ProgSpec
+	if cfg.NoProgs {
+		return nil
+	}
 	r := prng.Derive(seed, "population:"+cfg.ID)
 	nm := cfg.MasksPer[tier]
 	if nm == 0 {
